@@ -59,6 +59,24 @@ def c19 (args res : List String) : Verdict :=
         if same then vOk tag
         else if implOut.startsWith "ok" ∧ modelOut.startsWith "ok" then vProp "T2-peers-differ-from-the-listed-well-formed-entries" tag
         else vDiff "reply" modelOut tag
+  | ["fetch", statusS, bodyH] =>
+    -- one real HTTP exchange on the loopback: status and body served, what the client task tells the manager observed
+    match statusS.toNat?, parseHex bodyH with
+    | some status, some body =>
+      let implOut := joinToks res
+      let model := exchange status body
+      let tag := s!"fetch-{status}-{match model with | some m => s!"resp-{min m.peers.length 3}peers" | none => "fail"}"
+      if implOut = "timeout" ∨ implOut = "noreq" then vBad ("loopback exchange did not run: " ++ implOut)
+      else if statusSuccess status ∧ carriesFailure body ∧ implOut.startsWith "resp" then vProp "T3-failure-reason-not-reported-as-failure" tag
+      else
+        let modelOut := match model with
+          | some m => "resp " ++ respTok (.ok m)
+          | none => "fail"
+        if modelOut = implOut then vOk tag
+        else if model.isSome ∧ implOut = "fail" then vProp "T2-well-formed-reply-reported-as-failed-announce" tag
+        else if model.isSome ∧ implOut.startsWith "resp" then vProp "T2-peers-differ-from-the-listed-well-formed-entries" tag
+        else vDiff "fetch" modelOut tag
+    | _, _ => vBad (joinToks args)
   | ["e2e", kS, _, nS] =>
     match kS.toNat?, nS.toNat? with
     | some k, some n =>
